@@ -222,9 +222,6 @@ func runCKKSRefresh(c *eng.Ctx, cc caseCfg) {
 			logSlots := cpIn.LogMaxSlots()
 			if batched {
 				logSlots = min(w.pickLogSlots(cpIn.LogMaxSlots()), maxLogSlots)
-				if !std && logSlots < 1 {
-					logSlots = 1
-				}
 				m = w.newMessage(ctLevel, eng.Pick(w.rnd, "sk", "pk"), logSlots)
 			} else {
 				m = w.newCoeffMessage(ctLevel)
@@ -356,7 +353,7 @@ func runCKKSRefresh(c *eng.Ctx, cc caseCfg) {
 				c.Check(shares[i].MetaData.Equal(ct.MetaData), entry+".GenShare|share-metadata", nil)
 				// every third party sends its share over the wire
 				if i%3 == 1 {
-					if rt, ok := wireRefreshShare(c, shares[i]); ok {
+					if rt, wok := wireRefreshShare(c, shares[i]); wok {
 						shares[i] = rt
 					} else {
 						good = false
